@@ -9,6 +9,7 @@ mod props;
 mod run;
 mod sym;
 mod views;
+mod w64;
 
 #[global_allocator]
 static GLOBAL: alloc::Counting = alloc::Counting;
@@ -55,13 +56,81 @@ fn main() {
             if !args.iter().any(|a| a == "--keep-replays") { let _ = std::fs::remove_dir_all(format!("{}/{}", cfg.replay_dir, p)); }
             let t0 = Instant::now();
             let n_units = units.len();
+            // Differential guard on the compiled code (see DESIGN §2.3): every unit is run natively on 3 sampled inputs at f64 and at the
+            // newtype float W64, in this build profile and (subprocess) in the release profile. The verdict per obligation label must be the
+            // same in all four runs: the solver analysed the *generic* code in *this* profile, and a label that fails only at f64, or only in
+            // one profile, is a deviation the symbolic instantiation cannot see. Labels failing everywhere (f64 rounding residue, known
+            // findings) are not reported here: they are the explorer's business, in exact arithmetic.
+            let native_only = args.iter().any(|a| a == "--native-only");
+            const NS: u64 = 3;
+            let mut native_runs = 0u64;
+            // (unit index, sample) -> failing labels at f64 / at W64, and the inputs used
+            let mut nat: Vec<Option<(Vec<(String, String)>, Vec<(String, String)>, Vec<(String, f64)>)>> = vec![];
+            for u in &units { for s in 0..NS { native_runs += 2; let sd = seed * 1000 + s + 1;
+                let a = run::native_sample(u, sd, false); let b = run::native_sample(u, sd, true);
+                nat.push(match (a, b) { (Some((fa, inp)), Some((fb, _))) => Some((fa, fb, inp)), _ => None });
+            } }
+            if native_only {
+                for (i, e) in nat.iter().enumerate() { if let Some((fa, _, _)) = e { if !fa.is_empty() { println!("NATIVE-FAIL {} {}", i, J::arr_s(fa.iter().map(|(l, _)| l.clone())).pretty().replace('\n', " ")); } } }
+                println!("NATIVE-DONE {} {}", nat.len(), run::profile());
+                std::process::exit(0);
+            }
+            let mut native_code = 0;
+            let mut native_div: Vec<(String, String, String, String, Vec<(String, f64)>)> = vec![]; // unit, label, what, detail, inputs
+            for (i, e) in nat.iter().enumerate() { if let Some((fa, fb, inp)) = e {
+                let uid = &units[i / NS as usize].id;
+                for (l, d) in fa { if !fb.iter().any(|(m, _)| m == l) { native_div.push((uid.clone(), l.clone(), format!("fails at f64 but holds for the same code at the newtype float W64 ({} profile): the crate treats the concrete type f64 specially", run::profile()), d.clone(), inp.clone())); } }
+                for (l, d) in fb { if !fa.iter().any(|(m, _)| m == l) { native_div.push((uid.clone(), l.clone(), format!("fails at the newtype float W64 but holds at f64 ({} profile): the crate treats the concrete type f64 specially", run::profile()), d.clone(), inp.clone())); } }
+            } }
+            let mut release_native: Option<bool> = None;
+            if cfg!(debug_assertions) && !args.iter().any(|a| a == "--no-release-native") {
+                let exe = format!("{}/engine/target-rel/release/symcheck", verif);
+                let mut cmd = std::process::Command::new(&exe);
+                cmd.args([p, "--tier", if tier == Tier::Quick { "quick" } else { "thorough" }, "--seed", &seed.to_string(), "--native-only", "--no-evidence", "--keep-replays"]);
+                if let Some(only) = arg(&args, "--only") { cmd.args(["--only", &only]); }
+                match cmd.output() {
+                    Ok(out) => {
+                        let text = String::from_utf8_lossy(&out.stdout).to_string();
+                        let done = text.lines().any(|l| l == format!("NATIVE-DONE {} release", nat.len()));
+                        if !done { println!("UNDECIDED the release build of the harness did not complete its native sample runs (exit {:?})", out.status.code()); native_code = 2; }
+                        else {
+                            release_native = Some(true); native_runs += nat.len() as u64;
+                            let mut rel: std::collections::HashMap<usize, Vec<String>> = Default::default();
+                            for l in text.lines() { if let Some(r) = l.strip_prefix("NATIVE-FAIL ") { let (i, js) = r.split_once(' ').unwrap(); if let Ok(j) = json::parse(js) { rel.insert(i.parse().unwrap(), j.as_arr().map(|v| v.iter().filter_map(|x| x.as_str().map(|s| s.to_string())).collect()).unwrap_or_default()); } } }
+                            for (i, e) in nat.iter().enumerate() { if let Some((fa, _, inp)) = e {
+                                let uid = &units[i / NS as usize].id; let empty = vec![]; let fr = rel.get(&i).unwrap_or(&empty);
+                                // a panic in the dev build (debug_assert!, overflow check) that the release build does not have is the documented difference
+                                // between the profiles, not a divergence: the dev run stopped there, so nothing after it is comparable either
+                                if fa.iter().any(|(l, _)| l.starts_with("panic")) { continue; }
+                                for (l, d) in fa { if !fr.contains(l) { native_div.push((uid.clone(), l.clone(), "fails in the dev profile (debug assertions, overflow checks) but holds in the release profile on the same f64 inputs".into(), d.clone(), inp.clone())); } }
+                                for l in fr { if !fa.iter().any(|(m, _)| m == l) { native_div.push((uid.clone(), l.clone(), "fails in the release profile but holds in the dev profile on the same f64 inputs".into(), "re-run with `check replay` to see the release values".into(), inp.clone())); } }
+                            } }
+                        }
+                    }
+                    Err(e) => { println!("UNDECIDED cannot run the release build of the harness ({}): {}", exe, e); native_code = 2; }
+                }
+            }
+            let mut seen_units: Vec<String> = vec![];
+            for (i, (uid, label, what, detail, inp)) in native_div.iter().enumerate() {
+                if seen_units.contains(uid) { continue; } seen_units.push(uid.clone());
+                let dir = format!("{}/{}", cfg.replay_dir, p); let _ = std::fs::create_dir_all(&dir);
+                let path = format!("{}/native-divergence-{}.json", dir, i);
+                let j = J::obj(vec![("property", J::s(p)), ("unit", J::s(uid.clone())), ("kind", J::s(if label.starts_with("panic") { "panic" } else { "obligation" })), ("label", J::s(label.clone())), ("detail", J::s(format!("{}; {}", what, detail))),
+                    ("inputs", J::Obj(inp.iter().map(|(k, v)| (k.clone(), J::obj(vec![("exact", J::s(sym::f64_rat(*v).to_string())), ("f64", J::Num(*v))]))).collect())), ("found_by", J::s("differential native run of the compiled code (f64 vs newtype float, dev vs release) on a sampled input; not a solver verdict")),
+                    ("how_to_replay", J::s(format!("/verif/bin/check replay {}", path)))]);
+                let _ = std::fs::write(&path, j.pretty());
+                println!("VIOLATION property={} replay={}", p, path);
+                println!("  unit:   {}\n  what:   {} — {}\n  inputs: {}\n  native: {}", uid, label, what, inp.iter().map(|(k, x)| format!("{}={}", k, x)).collect::<Vec<_>>().join(" "), detail);
+                native_code = 1;
+            }
+            let native_summary = J::obj(vec![("runs", J::Int(native_runs as i64)), ("samples_per_unit", J::Int(NS as i64)), ("instantiations", J::arr_s(["f64".to_string(), "W64 (newtype around f64)".to_string()])), ("profiles", J::arr_s(if release_native.is_some() { vec!["dev".to_string(), "release".to_string()] } else { vec![run::profile().to_string()] })), ("divergent_units", J::Int(seen_units.len() as i64))]);
             let reports = run::explore_all(units, &cfg);
             let wall = t0.elapsed().as_secs_f64();
             // C15: the same units once more in the release build (debug assertions and overflow checks OFF, wrapping usize)
             let mut second: Option<J> = None;
             let mut second_code = 0;
             if p == "C15" && cfg!(debug_assertions) && !args.iter().any(|a| a == "--no-release-pass") {
-                let exe = format!("{}/engine/target/release/symcheck", verif);
+                let exe = format!("{}/engine/target-rel/release/symcheck", verif);
                 let mut cmd = std::process::Command::new(&exe);
                 cmd.args([p, "--tier", if tier == Tier::Quick { "quick" } else { "thorough" }, "--seed", &seed.to_string(), "--no-evidence", "--keep-replays", "--summary-json"]);
                 if let Some(only) = arg(&args, "--only") { cmd.args(["--only", &only]); }
@@ -76,8 +145,8 @@ fn main() {
                     Err(e) => { println!("UNDECIDED cannot run the release build of the harness ({}): {}", exe, e); second_code = 2; }
                 }
             }
-            let code = report(p, tier, seed, &reports, &meta, wall, &verif, n_units, args.iter().any(|a| a == "--no-evidence"), verbose, second, args.iter().any(|a| a == "--summary-json"));
-            let code = if code == 1 || second_code == 1 { 1 } else { code.max(second_code) };
+            let code = report(p, tier, seed, &reports, &meta, wall, &verif, n_units, args.iter().any(|a| a == "--no-evidence"), verbose, second, args.iter().any(|a| a == "--summary-json"), native_summary);
+            let code = if code == 1 || second_code == 1 || native_code == 1 { 1 } else { code.max(second_code).max(native_code) };
             std::process::exit(code);
         }
     }
@@ -106,10 +175,10 @@ fn replay_file(path: &str, timeout_ms: u64) -> i32 {
     let v = sym::Violation { label: label.into(), kind: kind.into(), decisions: vec![], model, model_raw: String::new(), smt: String::new(), detail: String::new() };
     let r = run::replay(&unit, &v, timeout_ms);
     println!("replay {} [{} profile]\n  unit:  {}\n  label: {}\n  exact rational replay: reproduces={} — {}\n  native f64 replay:     reproduces={} — {}", path, run::profile(), uid, label, r.exact_reproduces, r.exact_detail, r.native_reproduces, r.native_detail);
-    if r.exact_reproduces { 1 } else { 0 }
+    if r.exact_reproduces || r.native_reproduces { 1 } else { 0 }
 }
 
-fn report(p: &str, tier: Tier, seed: u64, reports: &[UnitReport], meta: &props::Meta, wall: f64, verif: &str, n_units: usize, no_evidence: bool, verbose: bool, second_pass: Option<J>, summary_json: bool) -> i32 {
+fn report(p: &str, tier: Tier, seed: u64, reports: &[UnitReport], meta: &props::Meta, wall: f64, verif: &str, n_units: usize, no_evidence: bool, verbose: bool, second_pass: Option<J>, summary_json: bool, native_summary: J) -> i32 {
     let sum = |f: &dyn Fn(&UnitReport) -> u64| reports.iter().map(|r| f(r)).sum::<u64>();
     let paths = sum(&|r| r.paths);
     let queries = sum(&|r| r.queries);
@@ -174,6 +243,7 @@ fn report(p: &str, tier: Tier, seed: u64, reports: &[UnitReport], meta: &props::
         ("violations", J::Int(violations)),
     ]);
     let mut ev = ev;
+    if let Some(J::Obj(cov)) = ev.get("coverage").cloned().as_ref() { let mut c = J::Obj(cov.clone()); c.set("native_differential_guard", native_summary); ev.set("coverage", c); }
     if let Some(sp) = second_pass { if let Some(J::Obj(cov)) = ev.get("coverage").cloned().as_ref() { let mut c = J::Obj(cov.clone()); c.set("release_profile_pass", sp); ev.set("coverage", c); } }
     if summary_json {
         println!("SUMMARY-JSON {}", J::obj(vec![("profile", J::s(run::profile())), ("units", J::Int(n_units as i64)), ("paths", J::Int(paths as i64)), ("queries", J::Int(queries as i64)), ("paths_ending_in_a_crate_panic", J::Int(sum(&|r| r.paths_panicked) as i64)), ("violations", J::Int(violations)), ("undecided", J::Int(inconclusive.len() as i64)), ("wall_s", J::Num((wall * 100.0).round() / 100.0))]).pretty().replace('\n', " "));
